@@ -352,6 +352,13 @@ def stepMask (q : LQuery) (s : Iso.Step) : Except EncErr Words := do
   let qmdl ← qmdlFor a
   if !qShiftsOk qmdl a then .error .valueError else pure (qWords qmdl a b)
 
+/-- the encoded closure bonds of one query atom: `bonds[j] = v; indices[j] = mapping[m]` for `(m, b)` in `_closures[n]` -/
+def closureBonds (q : LQuery) (fronts : List Nat) (n : Nat) (ms : List Nat) : Except EncErr (List CBond) :=
+  ms.mapM fun m =>
+    match q.bond? n m, indexOf? fronts m with
+    | some b, some j => .ok (⟨closureWord b, j⟩ : CBond)
+    | _, _ => .error .keyError
+
 /-- closure rows of one component: `for n, ms in _closures.items(): if (i := mapping.get(n)) is not None: …`
     (entries with an empty list exist only when an earlier Python-path search touched the `defaultdict`; they change
     nothing but `q_from/q_to` of closure-free atoms, which the matcher never reads — they are skipped here) -/
@@ -364,10 +371,7 @@ def closureRows (q : LQuery) (fronts : List Nat) :
     | some i =>
       if ms.isEmpty then closureRows q fronts rest start
       else do
-        let bs ← ms.mapM fun m =>
-          match q.bond? n m, indexOf? fronts m with
-          | some b, some j => .ok (⟨closureWord b, j⟩ : CBond)
-          | _, _ => .error .keyError
+        let bs ← closureBonds q fronts n ms
         let (rows, tl) ← closureRows q fronts rest (start + ms.length)
         pure ((i, ms.length, start, start + ms.length) :: rows, bs ++ tl)
 
@@ -380,15 +384,18 @@ def CQAtom.fit (a : CQAtom) : Bool :=
   a.m1 < two64 && a.m2 < two64 && a.m3 < two64 && a.m4 < two64 && a.back < two32 && a.closure < two32 &&
   a.from_ < two32 && a.to_ < two32 && a.mapping < two32
 
+/-- `back = [0] + [mapping[x] for _, x, *_ in c[1:]]` -/
+def backIndex (fronts : List Nat) (s : Iso.Step) : Except EncErr Nat :=
+  match s.back with
+  | none => .ok 0
+  | some b => match indexOf? fronts b with | some j => .ok j | none => .error .keyError
+
 /-- one element of `_cython_compiled_query` -/
 def encComponent (q : LQuery) (cl : Iso.Closures) (comp : List Iso.Step) : Except EncErr CQuery := do
   let fronts := comp.map (·.front)
   let masks ← comp.mapM (stepMask q)
   let (rows, bonds) ← closureRows q fronts cl 0
-  let backs ← comp.mapM fun s =>
-    match s.back with
-    | none => pure 0      -- `back = [0] + …`
-    | some b => match indexOf? fronts b with | some j => pure j | none => .error .keyError
+  let backs ← comp.mapM (backIndex fronts)
   let atoms := ((masks.zip backs).zip fronts).zipIdx.map fun (((w, bk), n), i) =>
     let r := rowOf rows i
     (⟨w.v1, w.v2, w.v3, w.v4, bk, r.1, r.2.1, r.2.2, n⟩ : CQAtom)
